@@ -167,7 +167,7 @@ def _get_aliases(result_types: dict, package_name: str) -> dict[str, set[str]]:
                     ):
                         fullname = key.node.target.type.fullname
                     elif isinstance(type_value, mypy_types.CallableType):
-                        bound_args = type_value.bound_args
+                        bound_args = getattr(type_value, "bound_args", None)
                         if bound_args and hasattr(bound_args[0], "type"):
                             fullname = bound_args[0].type.fullname  # type: ignore[union-attr]
                     elif hasattr(key, "node") and isinstance(key.node, mypy_nodes.Var):
@@ -186,8 +186,12 @@ def _get_aliases(result_types: dict, package_name: str) -> dict[str, set[str]]:
                     continue
 
             if in_package:
-                if isinstance(type_value, mypy_types.CallableType) and hasattr(type_value.bound_args[0], "type"):
-                    fullname = type_value.bound_args[0].type.fullname  # type: ignore[union-attr]
+                bound_args = getattr(type_value, "bound_args", None) if isinstance(type_value, mypy_types.CallableType) else None
+                if bound_args and hasattr(bound_args[0], "type"):
+                    fullname = bound_args[0].type.fullname  # type: ignore[union-attr]
+                elif isinstance(type_value, mypy_types.CallableType) and type_value.is_type_obj():
+                    # mypy >= 1.11 no longer records bound_args on the type object of a class
+                    fullname = type_value.type_object().fullname
                 elif isinstance(type_value, mypy_types.Instance):
                     fullname = type_value.type.fullname
                 elif isinstance(key, mypy_nodes.TypeVarExpr):
